@@ -424,6 +424,18 @@ theorem C04_rejected_op_changes_nothing {σ} (S : Sys σ) (s : Sim σ) (op : Op)
     · rfl
     · rw [parsUpdate_err s.pars _ e h]
 
+/-! ## Clearing -/
+
+/-- `clear_results` FOLLOWED BY A CONTINUATION: a cleared simulator is a fresh one — `Simulator(model, y0)` with the
+    parameters the model has now and the initial values the simulator holds (the last override included) — whatever happened
+    before (results, time shift, a failed integration): every later history runs exactly as on that fresh simulator. -/
+theorem C04_clear_is_fresh {σ} (S : Sys σ) (s : Sim σ) (ops : List Op) :
+    clear s = Sim.init s.pars s.y0 ∧
+    run S (step S s .clear).1 ops = run S (Sim.init s.pars s.y0) ops := by
+  have h : clear s = Sim.init s.pars s.y0 := by
+    simp [clear, Sim.init, reinit]
+  exact ⟨h, by simp only [step, h]⟩
+
 /-! ## Scaled parameters -/
 
 /-- `scale_parameter(s)` is `update_parameter(s)` with every named value multiplied by its factor — all factors applied
